@@ -203,12 +203,7 @@ add("C17", "C17-cwd-file-shadows-bundled-library",
 
 
 # ---- C13
-add("C13", K1, K1_WHAT, "K1",
-    {"stratum": "mix_head_of_pool", "prog": [["input", "e0", "signal-D", 0], ["input", "e1", "signal-B", 6],
-     ["input", "u0", None, -5], ["sig", "r0", ["c", ">=", ["v", "e0"], ["v", "e0"]]],
-     ["sig", "r1", ["s", ["c", ">", ["v", "e1"], ["n", -2]], ["v", "e0"]]],
-     ["sig", "r2", ["b", "+", ["v", "r0"], ["v", "u0"]]], ["sig", "r3", ["b", "-", ["v", "r1"], ["v", "u0"]]]],
-     "nval": 8, "vseed": 1008505233, "sseed": 26184728, "pseed": 424562606})
+add("C13", K1, K1_WHAT, "K1", witness("C13-K1"))
 
 
 # ---- C20
